@@ -129,6 +129,18 @@ def apply_edits(las, edits):
             d = las.curves[0].data.astype(float).copy()
             d[-1] = d[-1] + float(e[1])
             las.curves[0].data = d
+        elif k in ("setdata_drop_top", "data_assign_stride", "setdata_df"):
+            # the index changes through the whole-table routes; the last sample (and so STOP) stays what it was
+            if n < 3 or any(np.asarray(c.data).dtype.kind != "f" for c in las.curves):
+                continue
+            if k == "setdata_drop_top":
+                las.set_data(las.data[min(int(e[1]), n - 2):])
+            elif k == "data_assign_stride":
+                sel = list(range(n - 1, -1, -2))[::-1]  # every second row, the last one kept
+                las.data = las.data[sel]
+            else:
+                df = las.df()
+                las.set_data_from_df(df.iloc[min(int(e[1]), n - 2):])
         elif k == "curve_set" and len(las.curves) > 1:
             c = las.curves[1 + int(e[1]) % (len(las.curves) - 1)]
             if np.asarray(c.data).dtype.kind == "f":
@@ -184,7 +196,8 @@ def oracle(case):
     index_ever_edited = not was_read
     all_kinds = set()
     prev_text = None
-    INDEX_EDITS = {"index_shift", "index_reverse", "index_truncate", "index_irregular", "index_inplace"}
+    INDEX_EDITS = {"index_shift", "index_reverse", "index_truncate", "index_irregular", "index_inplace",
+                   "setdata_drop_top", "data_assign_stride", "setdata_df"}
     for n, edits in enumerate(rounds):
         idx_before = np.array(las.curves[0].data, dtype=float, copy=True) if len(las.curves) else np.array([])
         kinds = apply_edits(las, edits)
@@ -269,6 +282,9 @@ EDIT = st.one_of(
     st.tuples(st.just("index_inplace"), st.sampled_from([0.25, 1.0, -0.5])),
     st.tuples(st.just("index_inplace"), st.sampled_from([0.25, 1.0, -0.5])),
     st.tuples(st.just("index_truncate"), st.integers(1, 3)),
+    st.tuples(st.just("setdata_drop_top"), st.integers(1, 3)),
+    st.tuples(st.just("data_assign_stride")),
+    st.tuples(st.just("setdata_df"), st.integers(1, 2)),
     st.tuples(st.just("index_irregular"), st.sampled_from([0.25, -0.1, 7.0])),
     st.tuples(st.just("curve_set"), st.integers(0, 5), st.integers(0, 9), st.sampled_from([1.5, -42.0, 0.0])),
     st.tuples(st.just("header_set"), st.sampled_from(["W", "P"]), st.integers(0, 9), st.sampled_from(["edited", 17, 2.5, ""])),
@@ -278,7 +294,7 @@ EDIT = st.one_of(
 def corpus_cases(tier):
     optsets = [{}, {"version": 1.2, "wrap": True}, {"version": 2, "wrap": False, "fmt": "%.3f"}]
     editsets = [[], [["index_shift", 0.5]], [["index_reverse"]], [["index_inplace", 0.25]], [["curve_set", 0, 1, 1.5], ["header_set", "W", 0, "edited"]],
-                [["index_truncate", 2]]]
+                [["index_truncate", 2]], [["setdata_drop_top", 1]], [["data_assign_stride"]]]
     for f in inputs.corpus_files():
         for o in optsets:
             for e in editsets:
